@@ -229,15 +229,18 @@ Record dstate := mkD { dfrags : list bytes; dsize : N; dnext : N }.
 Definition dinit : dstate := mkD [] 0 0.
 Definition dreset (d : dstate) : dstate := mkD [] 0 (dnext d).
 
-Fixpoint join_aux (frags : list bytes) (size n : N) (acc : bytes) : option bytes :=
+Fixpoint join_aux (frags : list bytes) (size n : N) : option bytes :=
   match frags with
-  | [] => Some (acc ++ nrep 0 (size - n))
+  | [] => Some (nrep 0 (size - n))
   | p :: t =>
       if size <? n then None else
       let c := ntake (size - n) p in
-      join_aux t size (n + nlen c) (acc ++ c)
+      match join_aux t size (n + nlen c) with
+      | Some r => Some (c ++ r)
+      | None => None
+      end
   end.
-Definition join (frags : list bytes) (size : N) : option bytes := join_aux frags size 0 [].
+Definition join (frags : list bytes) (size : N) : option bytes := join_aux frags size 0.
 
 Definition dec (d : dstate) (p : packet) : dstate * dres bytes :=
   match vp9_unmarshal (ppayload p) with
@@ -300,6 +303,34 @@ Definition pid_of_param (param : N) : N :=
   else if param =? 31 then 65535 mod 32768
   else ((param - 16) * 2048 + 250) mod 32768.
 
+(* packets of a decode case; like GVL.Rtp.get_pkts but linear in the length of the line (the
+   near-cap histories are lines of several million tokens) *)
+Fixpoint take_n (n : N) (l : list N) {struct l} : option (list N * list N) :=
+  match l with
+  | [] => if n =? 0 then Some ([], []) else None
+  | x :: t =>
+    if n =? 0 then Some ([], l) else
+    match take_n (N.pred n) t with
+    | Some (a, r) => Some (x :: a, r)
+    | None => None
+    end
+  end.
+
+Fixpoint get_pkts_lin (fuel : list N) (k : N) (l : list N) : option (list packet) :=
+  if k =? 0 then Some [] else
+  match fuel with
+  | [] => None
+  | _ :: fuel' =>
+    match l with
+    | s :: t :: m :: n :: r =>
+      match take_n n r with
+      | Some (pl, r') => option_map (cons (mkPkt s t (getb m) pl)) (get_pkts_lin fuel' (N.pred k) r')
+      | None => None
+      end
+    | _ => None
+    end
+  end.
+
 Definition run (c : list N) : list N :=
   match c with
   | 1 :: param :: max :: seq :: k :: t =>
@@ -312,9 +343,9 @@ Definition run (c : list N) : list N :=
           end
       | None => bad_case
       end
-  | 2 :: _ :: t =>
-      match get_pkts t with
-      | Some (ps, _) =>
+  | 2 :: _ :: k :: t =>
+      match get_pkts_lin c k t with
+      | Some ps =>
           let '(d, rs) := dec_run dinit ps in
           concat (map put_res rs) ++ [fst (retained d); snd (retained d)]
       | None => bad_case
